@@ -19,6 +19,8 @@ pub struct GenCfg {
     pub alt_key_spellings: bool,
     /// generate extra (unknown) keys in structs
     pub extras: bool,
+    /// only the KEYS are restricted to [A-Za-z0-9_]; string values stay arbitrary
+    pub plain_keys: bool,
 }
 
 impl Default for GenCfg {
@@ -31,6 +33,7 @@ impl Default for GenCfg {
             plain_text: false,
             alt_key_spellings: false,
             extras: true,
+            plain_keys: false,
         }
     }
 }
@@ -48,7 +51,8 @@ pub const INT_POOL: &[i128] = &[
     9223372036854775806, 9223372036854775807, 9223372036854775808, 9223372036854775809, 18446744073709551614,
     18446744073709551615, -1, -2, -77, -100, -101, -127, -128, -129, -130, -32767, -32768, -32769, -65536,
     -2147483647, -2147483648, -2147483649, -4294967296, -9007199254740993, -9223372036854775807,
-    -9223372036854775808,
+    -9223372036854775808, 16777217, 16777219, -16777217, 1152921573326323713, 1152921573326323712, 1152921573326323711,
+    -1152921573326323713, 9007199254740995, 18014398509481985, 36028797018963969, 9223372649179195393,
 ];
 
 pub const STR_POOL: &[&str] = &[
@@ -137,8 +141,27 @@ impl<'a, R: Rng> Gen<'a, R> {
         }
     }
 
+    /// a string used as an object key
+    pub fn key_string(&mut self) -> String {
+        if self.cfg.plain_keys && !self.cfg.plain_text {
+            let saved = self.cfg.plain_text;
+            self.cfg.plain_text = true;
+            let k = self.string();
+            self.cfg.plain_text = saved;
+            k
+        } else {
+            self.string()
+        }
+    }
+    fn keys_plain(&self) -> bool {
+        self.cfg.plain_text || self.cfg.plain_keys
+    }
+
     pub fn int_any(&mut self) -> PV {
-        let c = self.below(10);
+        let c = self.below(11);
+        if c == 10 {
+            return self.int_midpoint();
+        }
         if c < 6 {
             PV::int(*self.pick(INT_POOL))
         } else if c < 8 {
@@ -148,6 +171,30 @@ impl<'a, R: Rng> Gen<'a, R> {
         } else {
             let v = self.rng.random::<i64>();
             PV::int(v as i128)
+        }
+    }
+
+    /// integers on, just below or just above a rounding midpoint of f32 (24 bits) / f64 (53 bits):
+    /// top `m` bits random, then the half bit, then zeros or a tiny remainder
+    pub fn int_midpoint(&mut self) -> PV {
+        let m: u32 = if self.chance(0.6) { 24 } else { 53 };
+        let len = (m + 2) + self.below((64 - m - 1) as usize) as u32; // total bit length m+2 ..= 64
+        let top_mask: u64 = if m == 64 { u64::MAX } else { (1u64 << m) - 1 };
+        let top = (self.rng.random::<u64>() & top_mask) | (1u64 << (m - 1));
+        let shift = len - m; // number of bits below the kept mantissa (>= 2)
+        let half = 1u64 << (shift - 1);
+        let base = top.checked_shl(shift).unwrap_or(0);
+        let v = match self.below(5) {
+            0 => base | half,                                   // exact tie
+            1 => base | half | 1,                               // just above the midpoint
+            2 => (base | half) - 1,                             // just below
+            3 => base | half | (1u64 << self.below((shift - 1).max(1) as usize)), // above, by a power of two
+            _ => base | (half - 1),                             // all ones below the half bit
+        };
+        if self.chance(0.25) && v <= i64::MAX as u64 {
+            PV::int(-(v as i128))
+        } else {
+            PV::Int(v)
         }
     }
 
@@ -198,7 +245,7 @@ impl<'a, R: Rng> Gen<'a, R> {
                 let n = self.below(4);
                 let mut m: Vec<(String, PV)> = vec![];
                 for _ in 0..n {
-                    let k = self.string();
+                    let k = self.key_string();
                     if !self.cfg.dup_keys && m.iter().any(|(kk, _)| *kk == k) {
                         continue;
                     }
@@ -271,7 +318,7 @@ impl<'a, R: Rng> Gen<'a, R> {
 
     fn key_for(&mut self, k: KeyTy) -> String {
         match k {
-            KeyTy::Str => self.string(),
+            KeyTy::Str => self.key_string(),
             KeyTy::U8 => {
                 let v = self.below(256);
                 if self.cfg.alt_key_spellings && self.chance(0.15) {
@@ -305,7 +352,7 @@ impl<'a, R: Rng> Gen<'a, R> {
             KeyTy::Bool => &["True", "1", "", "yes", "x"],
         };
         let s = self.pick(pool).to_string();
-        if self.cfg.plain_text && !s.chars().all(|c| c.is_ascii_alphanumeric() || c == '_') || s.is_empty() && self.cfg.plain_text {
+        if self.keys_plain() && (s.is_empty() || !s.chars().all(|c| c.is_ascii_alphanumeric() || c == '_')) {
             return Some("x".to_string());
         }
         Some(s)
@@ -535,7 +582,7 @@ impl<'a, R: Rng> Gen<'a, R> {
                     Some(f) => self.fields(f, Some(&en.tag), depth),
                     None => {
                         if self.cfg.extras && self.chance(0.2) {
-                            vec![(self.string(), self.blind(depth + 1))]
+                            vec![(self.key_string(), self.blind(depth + 1))]
                         } else {
                             vec![]
                         }
@@ -594,7 +641,7 @@ impl<'a, R: Rng> Gen<'a, R> {
             swap_two(key),
         ];
         cands.retain(|c| c != key);
-        if self.cfg.plain_text {
+        if self.keys_plain() {
             cands.retain(|c| !c.is_empty() && c.chars().all(|ch| ch.is_ascii_alphanumeric() || ch == '_'));
         }
         if cands.is_empty() {
@@ -650,7 +697,7 @@ impl<'a, R: Rng> Gen<'a, R> {
                         self.pick(&sk).ident.clone()
                     }
                     3 if tag.is_some() => format!("{}x", tag.unwrap()),
-                    _ => self.string(),
+                    _ => self.key_string(),
                 };
                 let known = fields.iter().any(|f| !f.skip && f.key == k) || tag == Some(k.as_str());
                 if known || m.iter().any(|(kk, _)| *kk == k) {
